@@ -360,9 +360,13 @@ int main(void)
 		if (pv_hmac_calls)
 			PROP(pv_s_key && pv_s_key->kty == JWK_KEY_TYPE_OCT,
 					 "C02: HS* evaluated only with an oct key");
+		/* RS/PS/ES/EdDSA: the provider is only ever handed an item that holds a provider key
+		 * object (never an oct item's raw bytes); the family test proper (EVP_PKEY_id /
+		 * pk algorithm vs. the algorithm) is the provider layer's and is proved there
+		 * (queries C02.ossl.*, C01.gnutls.*) */
 		if (pv_verify_calls)
-			PROP(pv_v_key && pv_v_key->kty == ref_alg_family(pv_v_alg),
-					 "C02: asymmetric algorithm evaluated only with a key of its family");
+			PROP(pv_v_key && pv_v_key->kty != JWK_KEY_TYPE_OCT && ref_alg_is_asym(pv_v_alg),
+					 "C02: asymmetric algorithm never evaluated with an oct key");
 		if (pv_hmac_calls + pv_verify_calls + pv_pem_calls)
 			PROP(eff_have_key && pinned != JWT_ALG_NONE,
 					 "C02: no crypto without key and pinned algorithm");
